@@ -74,7 +74,9 @@ def h2_source(facts, cfg):
     release = [e for e in p.events if e.name == mc['release']][0]
     others_ = [e for e in p.ins() if e.name not in (mc['claim'], mc['release']) and e.reply[0] == 'void']
     other = others_[0] if others_ else None        # (a multi-client interface may have no other in-event at all)
-    out_ev = p.outs()[0]
+    # around the import shell the monitored out-event is the LAST one of the interface (the parameterless one of the
+    # usual multi-client interface), around the create shell the first one (it carries an argument)
+    out_ev = p.outs()[-1] if cfg.get('fac') == 'import' else p.outs()[0]
     sns = lab.support_ns(cfg)
     shell_t = '::' + '::'.join(list(facts.scope) + [facts.base + cfg.get('suffix', 'Shell')])
     comp_t = '::' + '::'.join(facts.enc.fqn)
@@ -115,6 +117,7 @@ struct Fixture {
   dzn::locator loc; %(sns)s::ILog log; std::unique_ptr<Shell> sh; Comp* comp = nullptr; dzn::pump* pump = nullptr;
   int ncl; std::atomic<int> st[3]; std::atomic<long> ep[3]; std::atomic<int> got[3]; std::atomic<int> live{0};
   bool claimed = false;                                                   // dispatcher thread only
+  std::atomic<int> stale_in_flight{0};
   std::atomic<long> handled{0};
   std::vector<int> delivered; int late_delivery = -1;                   // dispatcher thread only
   std::string violation; std::string client_violation[3]; long raised = 0, demanded = 0;
@@ -126,7 +129,8 @@ struct Fixture {
     %(find_pump)s
     // a legal arbiter: grants iff unclaimed
     comp->%(port)s.in.%(claim)s = [this]%(claim_sig)s { ++handled; %(claim_outs)s if (!claimed) { claimed = true; return %(grant)s; } return %(deny)s; };
-    comp->%(port)s.in.%(release)s = [this]%(release_sig)s { ++handled; %(release_outs)s claimed = false; };
+    // (a release announced as "stale" by the harness - sent by a client that does not hold the claim - leaves the arbiter alone)
+    comp->%(port)s.in.%(release)s = [this]%(release_sig)s { ++handled; %(release_outs)s if (stale_in_flight > 0) { --stale_in_flight; return; } claimed = false; };
 %(other_in_binds)s
     for (int c = 0; c < ncl; ++c) {
       auto port = sh->ProvidesMultiClient%(cap)s(CL[c]);
@@ -169,7 +173,10 @@ static void client(Fixture* fx, int c, int cycles, int use) {
       fx->st[c] = RELEASING; fx->ep[c]++;
       { %(release_decl)s port.port.in.%(release)s(%(release_call)s); }
       fx->st[c] = IDLE; fx->ep[c]++;
-    } else { fx->st[c] = IDLE; fx->ep[c]++; }
+    } else {
+      // "whatever other clients do in between": with use & 4 a client whose claim was denied sends a (stale) release
+      if (use & 4) { fx->stale_in_flight++; %(release_decl)s port.port.in.%(release)s(%(release_call)s); }
+      fx->st[c] = IDLE; fx->ep[c]++; }
   }
 #ifndef VF_FREE_RUN
   if (--fx->live == 0) { (*fx->pump)([fx] { fx->pump->stop = true; }); }
